@@ -130,14 +130,19 @@ def forbidden_tokens() -> list[str]:
     return hits
 
 
-def lake_build(timeout: int = 3000) -> tuple[bool, str]:
-    """Build library + driver exe under a file lock (checks may run concurrently)."""
+def lake_build(timeout: int = 3000, prop: str | None = None) -> tuple[bool, str]:
+    """Build under a file lock (checks may run concurrently). With `prop`, only that property's theorems and the
+    model driver are built, so that a broken proof file of another property cannot fail this check."""
     os.makedirs(os.path.join(LEAN_DIR, ".lake"), exist_ok=True)
     lock = open(os.path.join(LEAN_DIR, ".lake", "verif.lock"), "w")
     fcntl.flock(lock, fcntl.LOCK_EX)
     try:
         p = subprocess.run(
-            ["lake", "build"], cwd=LEAN_DIR, capture_output=True, text=True, timeout=timeout
+            ["lake", "build"] + ([f"IrVerif.Props.{prop}", "irdriver"] if prop else []),
+            cwd=LEAN_DIR,
+            capture_output=True,
+            text=True,
+            timeout=timeout,
         )
         if p.returncode == 0 and os.path.exists(DRIVER):
             _snapshot_driver()
@@ -449,7 +454,7 @@ def write_evidence(ctx: Ctx, violations: int, assumptions: list[str]) -> None:
 def proof_tier(ctx: Ctx, theorems: list[str]) -> list[str]:
     """Returns the list of proof obligations that do NOT check (empty = all discharged)."""
     broken: list[str] = []
-    ok, log = lake_build()
+    ok, log = lake_build(prop=ctx.prop)
     if not ok:
         broken.append("lake build failed: " + log[-1500:])
     hits = forbidden_tokens()
@@ -521,7 +526,10 @@ def main(argv: list[str]) -> int:
         if a.replay:
             with open(a.replay) as f:
                 obj = json.load(f)
-            lake_build()
+            okb, logb = lake_build(prop=prop)
+            if not okb:
+                print(f"REPLAY-DISAGREE property={prop} lake build failed: {logb[-400:]}")
+                return 1
             mod.replay(ctx, obj)
             for fl in ctx.failures:
                 print(f"REPLAY-FAIL property={prop} {fl['signature']}: {fl['what']}")
